@@ -213,9 +213,14 @@ def fixedHostText (url : Str) (hostname : Option Str) (port : Option Str) : Opti
 
 /-- ASSUMED of `urllib.parse.urlparse` on the grammar (checked against the real `urlparse` by the
     correspondence harness on every case, not proved): `.hostname` is the host — for a bracketed
-    literal the bracket content, zone included — lower-cased; `.port` is the port. -/
+    literal the bracket content — with the part before the first `%` lower-cased and the zone (delimiter
+    included) left as written (CPython: `hostname.partition('%')`, `hostname.lower() + percent + zone`);
+    `.port` is the port. -/
 def urlparseHostname (u : Url) : Str :=
-  lowerStr (match u.host with | .plain h => h | .ipv6 a => a | .zoned a d z => a ++ d ++ z)
+  match u.host with
+  | .plain h => lowerStr h
+  | .ipv6 a => lowerStr a
+  | .zoned a d z => lowerStr a ++ d ++ z
 def urlparsePort (u : Url) : Option Str := u.port
 
 abbrev Headers := PyDict Str Str
